@@ -3,8 +3,8 @@
    `feplan` (harness/h_loops.cpp, the real for_each_n template with an instrumented task set): per element its count
             and its runner (-1 calling thread before wait(), -2 calling thread after wait(), j = scheduled closure j),
             number of closures scheduled and number of wait() calls made by for_each_n.
-   A crash of the implementation is reported by the driver as counts = [] with crashed = true.
-   Result = verdict*10 + d, d = 1 when the configuration is in c15_dom. *)
+   A crash of the implementation is reported by the driver as crashed = true.
+   Verdict 0 = agrees with the model and the property holds; 1 = differs but the property holds; 2 = the property fails. *)
 From Coq Require Import ZArith List Bool.
 From DV Require Import Base.MachInt Base.Corr Model.ChunkModel Gen.GenChunk Model.ParForModel Model.PlanModel Model.ForEachModel.
 Import ListNotations.
@@ -21,24 +21,16 @@ Fixpoint idx_ok (p : list call) (i : Z) (l : list (Z * Z)) : bool :=
 Definition fe_expected_nsched (c : fecfg) : Z :=
   match fe_decide c with
   | FPar => if fe_wait c then fe_numThreads c - 1 else fe_numThreads c
-  | _ => 0
+  | FSerial => 0
   end.
 
 (* real pool: (cfg, crashed, counts) *)
 Definition judge_fe15 (x : fecfg * bool * list Z) : Z :=
   let '(c, crashed, counts) := x in
-  let dom := b2z (c15_dom c) in
-  if crashed || negb (all_one counts) || negb (Z.of_nat (length counts) =? fe_n c) then
-    20 + dom
-  else match fe_plan c with Some _ => dom | None => 10 + dom end.
+  if crashed || negb (all_one counts) || negb (Z.of_nat (length counts) =? fe_n c) then 2 else 0.
 
 (* instrumented task set: (cfg, crashed, [(count, runner)], nsched, nwaits) *)
 Definition judge_feplan15 (x : fecfg * bool * list (Z * Z) * (Z * Z)) : Z :=
   let '(c, crashed, l, (nsched, nwaits)) := x in
-  let dom := b2z (c15_dom c) in
-  if crashed || negb (all_one (map fst l)) || negb (Z.of_nat (length l) =? fe_n c) then
-    20 + dom
-  else match fe_plan c with
-       | Some p => if idx_ok p 0 l && (nsched =? fe_expected_nsched c) && (nwaits =? b2z (fe_wait c)) then dom else 10 + dom
-       | None => 10 + dom
-       end.
+  if crashed || negb (all_one (map fst l)) || negb (Z.of_nat (length l) =? fe_n c) then 2
+  else if idx_ok (fe_plan c) 0 l && (nsched =? fe_expected_nsched c) && (nwaits =? b2z (fe_wait c)) then 0 else 1.
